@@ -5,6 +5,7 @@ import (
 	"fmt"
 	"math/rand"
 	"sort"
+	"strings"
 
 	"github.com/canopy-network/canopy/fsm"
 	"github.com/canopy-network/canopy/lib"
@@ -41,7 +42,12 @@ type SlashLine struct {
 	After    []SlVal   `json:"after"`
 	Failing  int       `json:"failing"`  // transactions submitted that fail on delivery
 	Included int       `json:"included"` // transactions in the block
-	Err      string    `json:"err"`
+	// certificate-results transactions whose every reported (validator, height) pair is new and whose chain height is new:
+	// nothing allows refusing them. Submitted to the pool for this block / found in the block.
+	ValidSubmitted int    `json:"validSubmitted"`
+	ValidIncluded  int    `json:"validIncluded"`
+	Replayed       int    `json:"replayed"` // submitted: transactions that only repeat pairs already slashed (must fail on delivery)
+	Err            string `json:"err"`
 }
 
 func victims(sc *Scan) []SlVal {
@@ -59,22 +65,26 @@ func victims(sc *Scan) []SlVal {
 }
 
 type slashSim struct {
-	n        *node
-	run      int
-	out      *json.Encoder
-	rng      *rand.Rand
-	capOn    bool
-	pct, max uint64
-	reported map[string]bool // "validator/height" pairs already used as evidence heights
-	nestedH  uint64          // chain height of the nested chain's last certificate
-	pending  []SlOrder       // slashes ordered by the last own-chain certificate: applied when the next block begins
-	salt     int
+	n           *node
+	run         int
+	out         *json.Encoder
+	rng         *rand.Rand
+	capOn       bool
+	pct, max    uint64
+	reported    map[string]bool // "validator/height" pairs already used as evidence heights
+	nestedH     uint64          // chain height of the nested chain's last certificate
+	pending     []SlOrder       // slashes ordered by the last own-chain certificate: applied when the next block begins
+	salt        int
+	applied     map[string]bool     // "validator/height" pairs whose slash is in a committed block
+	pendingKeys map[string]bool     // the pairs behind `pending`
+	validTx     map[string]bool     // hashes of the valid certificate-results transactions submitted for the current block
+	retry       []*lib.DoubleSigner // pairs that were only ever offered inside a transaction that had to fail: still unreported
 }
 
 func newSlashSim(run int, seed int64, out *json.Encoder) (*slashSim, error) {
 	store.VerifPurgeBlockCache()
 	rng := rand.New(rand.NewSource(seed))
-	s := &slashSim{run: run, out: out, rng: rng, capOn: run%4 != 3, reported: map[string]bool{}}
+	s := &slashSim{run: run, out: out, rng: rng, capOn: run%4 != 3, reported: map[string]bool{}, applied: map[string]bool{}}
 	s.pct, s.max = []uint64{10, 10, 7, 4}[rng.Intn(4)], []uint64{15, 15, 20, 10}[rng.Intn(4)]
 	gs := GenesisSpec{Stakes: []uint64{10000000, 100000, 100000 + uint64(rng.Intn(5000)), 50000 + uint64(rng.Intn(999))}, Accounts: 3, Balance: 100000,
 		Committees: [][]uint64{{1, 2}, {1, 2}, {2, 1}, {2}},
@@ -160,11 +170,43 @@ func (s *slashSim) report(who int, count int) *lib.DoubleSigner {
 	return &lib.DoubleSigner{Id: s.n.valKeys[who].PublicKey().Bytes(), Heights: hs}
 }
 
-func (s *slashSim) orders(chain uint64, dbl []*lib.DoubleSigner) (out []SlOrder) {
+// orders: the slashes a list of double signers orders; a (validator, height) pair counts once in the life of the chain
+// oldPair: a (validator, height) pair whose slash is already in a committed block
+func (s *slashSim) oldPair() *lib.DoubleSigner {
+	var keys []string
+	for k := range s.applied {
+		keys = append(keys, k)
+	}
+	if len(keys) == 0 {
+		return nil
+	}
+	sort.Strings(keys)
+	var name string
+	var x uint64
+	k := keys[s.rng.Intn(len(keys))]
+	if i := strings.Index(k, "/"); i > 0 {
+		name = k[:i]
+		fmt.Sscan(k[i+1:], &x)
+	}
+	for i, key := range s.n.valKeys {
+		if addrName(s.n.names, key.PublicKey().Address().Bytes()) == name {
+			return &lib.DoubleSigner{Id: s.n.valKeys[i].PublicKey().Bytes(), Heights: []uint64{x}}
+		}
+	}
+	return nil
+}
+
+func (s *slashSim) orders(chain uint64, dbl []*lib.DoubleSigner, mark map[string]bool) (out []SlOrder) {
 	for _, d := range dbl {
-		for range d.Heights {
-			pk, _ := crypto.NewPublicKeyFromBytes(d.Id)
-			out = append(out, SlOrder{Name: addrName(s.n.names, pk.Address().Bytes()), Chain: chain, Pct: s.pct})
+		pk, _ := crypto.NewPublicKeyFromBytes(d.Id)
+		name := addrName(s.n.names, pk.Address().Bytes())
+		for _, x := range d.Heights {
+			key := fmt.Sprintf("%s/%d", name, x)
+			if s.applied[key] || mark[key] {
+				continue
+			}
+			mark[key] = true
+			out = append(out, SlOrder{Name: name, Chain: chain, Pct: s.pct})
 		}
 	}
 	return
@@ -178,10 +220,31 @@ func (s *slashSim) block() bool {
 		return false
 	}
 	line := SlashLine{Run: s.run, Height: h, CapOn: s.capOn, Max: s.max, Before: victims(sc0), Slashes: append([]SlOrder{}, s.pending...), After: []SlVal{}}
-	// transactions: certificate results of the nested chain with failing transfers between them (descending fees fix the order)
+	mark := map[string]bool{} // pairs whose slash this block applies (begin-block ones first)
+	for k := range s.pendingKeys {
+		mark[k] = true
+	}
+	s.validTx = map[string]bool{}
+	submitValid := func(dbl []*lib.DoubleSigner, fee uint64) bool {
+		bz, e := s.certResultsTx(dbl, fee, false)
+		if e != nil || n.c.Mempool.HandleTransactions(bz) != nil {
+			return false
+		}
+		s.validTx[crypto.HashString(bz)] = true
+		line.ValidSubmitted++
+		return true
+	}
+	// transactions: certificate results of the nested chain with failing ones between them (the pool keeps them in arrival order)
 	fee := uint64(90000)
 	ntx := s.rng.Intn(4)
 	submitted := 0
+	// pairs that so far only appeared inside a transaction that had to fail are reported properly now
+	for _, d := range s.retry {
+		if h > 2 && submitValid([]*lib.DoubleSigner{d}, fee) {
+			submitted++
+		}
+	}
+	s.retry = nil
 	for i := 0; i < ntx && h > 2; i++ {
 		var dbl []*lib.DoubleSigner
 		for _, who := range s.rng.Perm(3)[:1+s.rng.Intn(2)] {
@@ -192,15 +255,39 @@ func (s *slashSim) block() bool {
 		if len(dbl) == 0 {
 			continue
 		}
-		if bz, e := s.certResultsTx(dbl, fee, false); e == nil && n.c.Mempool.HandleTransactions(bz) == nil {
+		if submitValid(dbl, fee) {
 			submitted++
 		}
 		// transactions that pass the mempool's stateless checks and fail on delivery. The pool puts certificate results ahead
 		// of everything else (in arrival order), so what can stand BETWEEN two of them is another certificate-results
-		// transaction: one that repeats the chain height and the (by then indexed) evidence of the previous one
-		if s.rng.Intn(3) != 0 {
+		// transaction: one that repeats the chain height and the (by then indexed) evidence of the previous one, ...
+		switch s.rng.Intn(4) {
+		case 0, 1:
 			if bz, e := s.certResultsTx(dbl, fee, true); e == nil && n.c.Mempool.HandleTransactions(bz) == nil {
 				line.Failing++
+			}
+		case 2: // ... one with a new chain height that only repeats a pair slashed in an earlier block, ...
+			if old := s.oldPair(); old != nil {
+				if bz, e := s.certResultsTx([]*lib.DoubleSigner{old}, fee, false); e == nil && n.c.Mempool.HandleTransactions(bz) == nil {
+					line.Failing++
+					line.Replayed++
+				}
+			}
+		case 3: // ... or one that reports a NEW pair first and a repeated one behind it: it fails after having indexed the new pair
+			if old := s.oldPair(); old != nil {
+				if fresh := s.report(1+s.rng.Intn(3), 1); fresh != nil {
+					if bz, e := s.certResultsTx([]*lib.DoubleSigner{fresh, old}, fee, false); e == nil && n.c.Mempool.HandleTransactions(bz) == nil {
+						line.Failing++
+						// the new pair is reported properly right behind it (same block: the proposer executes both in one pass) or in the next block
+						if s.rng.Intn(3) != 0 {
+							if submitValid([]*lib.DoubleSigner{fresh}, fee) {
+								submitted++
+							}
+						} else {
+							s.retry = append(s.retry, fresh)
+						}
+					}
+				}
 			}
 		}
 		if s.rng.Intn(3) == 0 { // and an ordinary one behind them: the account cannot pay the amount
@@ -227,7 +314,10 @@ func (s *slashSim) block() bool {
 		}
 		msg := new(fsm.MessageCertificateResults)
 		if e := tx.Msg.UnmarshalTo(msg); e == nil && msg.Qc != nil && msg.Qc.Results != nil && msg.Qc.Results.SlashRecipients != nil {
-			line.Slashes = append(line.Slashes, s.orders(msg.Qc.Header.ChainId, msg.Qc.Results.SlashRecipients.DoubleSigners)...)
+			line.Slashes = append(line.Slashes, s.orders(msg.Qc.Header.ChainId, msg.Qc.Results.SlashRecipients.DoubleSigners, mark)...)
+		}
+		if s.validTx[crypto.HashString(raw)] {
+			line.ValidIncluded++
 		}
 	}
 	// the state the proposed header commits to: the mempool's working copy, rebuilt by ProduceProposal when transactions arrived
@@ -264,7 +354,11 @@ func (s *slashSim) block() bool {
 	}
 	line.Kind, line.After = "block", victims(sc)
 	_ = s.out.Encode(line)
-	s.pending = s.orders(1, own)
+	for k := range mark {
+		s.applied[k] = true
+	}
+	s.pendingKeys = map[string]bool{}
+	s.pending = s.orders(1, own, s.pendingKeys)
 	return true
 }
 
